@@ -1195,4 +1195,53 @@ theorem tol01_run (evs : List Ev) (s : Sess) (h0 : s.rem.tol = 0) : (s.run evs).
   | cons e evs ih =>
     rw [run_cons, run_cons, ih _ (by rw [step_tolR]; exact h0), tol01_step s e h0]
 
+/-- forget the heartbeat messages the application sent itself -/
+def Sess.dropAppHb (s : Sess) : Sess := { s with writes := s.writes.filter fun w => w.origin != .appHb }
+
+theorem dropAppHb_tickLocal (s : Sess) : s.tickLocal.dropAppHb = s.dropAppHb.tickLocal := by
+  have e : s.dropAppHb.loc = s.loc := rfl
+  by_cases h : s.loc.adv.2 = true
+  · simp only [Sess.tickLocal, e, h, if_true]
+    simp [Sess.dropAppHb, Sess.sendMsg, Origin.isHb]
+  · simp only [Sess.tickLocal, e, h]; rfl
+
+theorem dropAppHb_close (s : Sess) (b : Bool) : (s.close b).dropAppHb = s.dropAppHb.close b := by
+  have e : s.dropAppHb.closed = s.closed := rfl
+  cases h : s.closed
+  · simp only [Sess.close, e, h]; rfl
+  · simp only [Sess.close, e, h, if_true]
+
+theorem dropAppHb_tickRemote (s : Sess) : s.tickRemote.dropAppHb = s.dropAppHb.tickRemote := by
+  have e : s.dropAppHb.rem = s.rem := rfl
+  by_cases h : s.rem.adv.2 = true
+  · simp only [Sess.tickRemote, e, h, if_true]; rw [dropAppHb_close]; rfl
+  · simp only [Sess.tickRemote, e, h]; rfl
+
+theorem dropAppHb_step (s : Sess) (e : Ev) (he : e ≠ .sendHb) : (s.step e).dropAppHb = s.dropAppHb.step e := by
+  cases e with
+  | adv =>
+    show s.bump.tickLocal.tickRemote.dropAppHb = s.dropAppHb.bump.tickLocal.tickRemote
+    rw [dropAppHb_tickRemote, dropAppHb_tickLocal]; rfl
+  | send => simp [Sess.step, Sess.dropAppHb, Sess.sendMsg, Origin.isHb]
+  | sendHb => exact absurd rfl he
+  | recv k => rfl
+  | close => exact dropAppHb_close s false
+
+theorem dropAppHb_sendHb (s : Sess) : (s.step .sendHb).dropAppHb = s.dropAppHb := by
+  simp [Sess.step, Sess.dropAppHb, Sess.sendMsg, Origin.isHb]
+
+theorem dropAppHb_run (evs : List Ev) (s : Sess) :
+    (s.run evs).dropAppHb = s.dropAppHb.run (evs.filter fun e => e != .sendHb) := by
+  induction evs generalizing s with
+  | nil => rfl
+  | cons e evs ih =>
+    rw [run_cons, ih]
+    by_cases he : e = .sendHb
+    · subst he
+      rw [dropAppHb_sendHb]
+      simp
+    · rw [dropAppHb_step s e he]
+      have : (e != Ev.sendHb) = true := by simp [he]
+      simp [this, run_cons]
+
 end NasdaqModel.Monitor
